@@ -56,19 +56,42 @@ def r35_fraction_digits(ctx):
         problems.append("the digits come from %s, which drops leading zeros"
                         % U(int_str[0])[:50])
     # no return path may yield an empty string
+    from ..flow import path_conds
+
+    def truthy_known(name, conds):
+        for t, pol in conds:
+            if isinstance(t, ast.Name) and t.id == name and pol:
+                return True
+            if isinstance(t, ast.UnaryOp) and isinstance(
+                    t.op, ast.Not) and isinstance(
+                        t.operand, ast.Name) and t.operand.id == name and \
+                    not pol:
+                return True
+        return False
     for r in nonconst:
-        v = r.value
-        guarded = False
-        if isinstance(v, ast.Name):
-            seq = getattr(parent(r), "body", [])
-            for st in walk_no_nested(f.node):
-                if isinstance(st, ast.If) and U(st.test) in (
-                        "not " + v.id,) and any(isinstance(
-                            x, ast.Return) for x in st.body):
-                    guarded = True
-        if isinstance(v, ast.BoolOp) and isinstance(v.op, ast.Or) and \
-                isinstance(v.values[-1], ast.Constant) and v.values[-1].value:
-            guarded = True
+        leaves = []
+        todo = [(r.value, path_conds(r))]
+        while todo:
+            v, conds = todo.pop()
+            if isinstance(v, ast.IfExp):
+                todo.append((v.body, [(v.test, True)] + conds))
+                todo.append((v.orelse, [(v.test, False)] + conds))
+            else:
+                leaves.append((v, conds))
+        guarded = True
+        for v, conds in leaves:
+            if isinstance(v, ast.Constant):
+                if not v.value:
+                    guarded = False
+            elif isinstance(v, ast.Name):
+                if not truthy_known(v.id, conds):
+                    guarded = False
+            elif isinstance(v, ast.BoolOp) and isinstance(v.op, ast.Or) and \
+                    isinstance(v.values[-1], ast.Constant) and \
+                    v.values[-1].value:
+                pass
+            else:
+                guarded = False
         if not guarded:
             problems.append("a returned fraction string may be empty")
     rep.check(not problems, rule, ctx.fkey(f, None, "fixed-width"), f.loc(),
